@@ -232,6 +232,18 @@ def step(ms, op):
     if k == "fsetset":
         # an assignment whose first attempt fails at a container write and which is then repeated: same end state as the assignment
         return step(ms, ("set", op[1], op[2]))
+    if k == "callfun":
+        # one call of a function generated for several inputs: the end state of assigning the inputs one after the other
+        cur, trig = ms, set()
+        for L, v in zip(op[1], op[2]):
+            cur, e1 = step(cur, ("set", L, v))
+            if e1.raises:
+                return ms, e1
+            trig |= set(e1.trigger)
+        ex.assigned = op[1][0]
+        ex.trigger = trig
+        ex.order = cur.order_for(trig) or []
+        return cur, ex
     if k in ("set", "def", "iop", "setc"):
         path = op[1]
         structural = False
